@@ -1,5 +1,7 @@
 import AthlibVerif.Props.C02
 import AthlibVerif.Lemmas.Ranking
+import AthlibVerif.Lemmas.Places
+import AthlibVerif.Lemmas.Best
 /-!
 # C03 — High jump: final placings follow the countback rule and the jump-off result
 
@@ -12,30 +14,20 @@ Proved here, for all inputs:
   the model's `sortRanked` on bibs is that sort on the athletes' keys (`C03_sortRanked_is_key_sort`);
 * a clearance never lowers an athlete's best, the best only changes by a clearance and is then the bar
   height cleared (`C03_best_*`) — the repaired behaviour; on the pinned code the best was overwritten.
-Not proved (kept as the full statement `C03_statement`; decided by the correspondence + referee):
-that the places of every reachable terminal state equal the referee's places computed from the cards.
+* **the placing clause itself** (`C03`, `C03_places_every_decided_state`): in every state reachable from the empty
+  competition whose phase is past `started` — jump-off, won, finished, drawn — every athlete's place is `1 +` the
+  number of athletes with a strictly better key.  Proof (Lemmas/Places.lean): bibs stay distinct and `ranked` stays a
+  permutation of them (`WF`, invariant of `step`); under `WF` the record-rewriting loop of `assignPlaces` is the
+  abstract numbering on the sorted keys; `_rank` ends on every path in `_rankj` or in a change of phase only; raising
+  the bar touches neither keys nor places.
+The key is the one the code ranks by (stored best, its column, failures from the card, eliminated flag); that the
+stored best is the greatest height cleared is `C03_best_*`; the comparison with places recomputed from the printed
+cards alone is the referee's part in tools/checks/c03.py.
 -/
 namespace AthlibVerif.Props.C03
 open AthlibVerif AthlibVerif.HJ AthlibVerif.Ranking
 
-theorem keyLt_strictTotal : StrictTotal Key.lt where
-  irrefl := by
-    intro a; unfold Key.lt; simp
-  trans := by
-    intro a b c h1 h2
-    unfold Key.lt at *
-    simp only [Bool.or_eq_true, Bool.and_eq_true, decide_eq_true_eq, beq_iff_eq] at *
-    omega
-  tri := by
-    intro a b
-    unfold Key.lt
-    simp only [Bool.or_eq_true, Bool.and_eq_true, decide_eq_true_eq, beq_iff_eq]
-    have : a = b ↔ (a.status = b.status ∧ a.negBest = b.negBest ∧ a.fa = b.fa ∧ a.fb = b.fb) := by
-      constructor
-      · rintro rfl; simp
-      · cases a; cases b; simp_all
-    rw [this]
-    omega
+theorem keyLt_strictTotal : StrictTotal Key.lt := HJ.keyLt_strictTotal
 
 /-- **Places follow the keys** (the algorithm of `_rankj`): after the stable sort every entry's place is
     `1 +` the number of entries with a strictly smaller (better) key. -/
@@ -89,66 +81,11 @@ theorem C03_first_place_exists (ks : List Key) (h : ks ≠ []) :
       · simp [hs.1 b hb]
     rw [this]; rfl
 
-/-- the key of a registered bib (default for unknown bibs, which never occur in `ranked`) -/
-def keyOf (c : Comp) (b : Nat) : Key := ((c.find b).map Jumper.key).getD ⟨0, 0, 0, 0⟩
-
-theorem insertBy_is_insertK (c : Comp) (b : Nat) (hb : (c.find b).isSome) :
-    ∀ l : List Nat, (∀ a ∈ l, (c.find a).isSome) →
-      (insertBy c b l).map (keyOf c) = insertK Key.lt (keyOf c b) (l.map (keyOf c)) := by
-  intro l
-  induction l with
-  | nil => intro _; simp [insertBy, insertK]
-  | cons a rest ih =>
-    intro hl
-    obtain ⟨jb, hjb⟩ := Option.isSome_iff_exists.1 hb
-    obtain ⟨ja, hja⟩ := Option.isSome_iff_exists.1 (hl a (by simp))
-    simp only [insertBy, hjb, hja, List.map_cons, insertK]
-    have e1 : keyOf c b = jb.key := by simp [keyOf, hjb]
-    have e2 : keyOf c a = ja.key := by simp [keyOf, hja]
-    rw [e1, e2]
-    split
-    · simp [e1, e2]
-    · simp only [List.map_cons, e2]
-      rw [ih (fun x hx => hl x (by simp [hx])), e1]
-
 /-- **The model's ranking sort is the stable key sort**: `sortRanked` on the ranked bibs, seen through the
     athletes' keys, is `sortK` on the keys — so the order of `ranked_jumpers` matters only through keys. -/
 theorem C03_sortRanked_is_key_sort (c : Comp) (l : List Nat) (hl : ∀ a ∈ l, (c.find a).isSome) :
-    (sortRanked c l).map (keyOf c) = sortK Key.lt (l.map (keyOf c)) := by
-  unfold sortRanked sortK
-  suffices ∀ acc : List Nat, (∀ a ∈ acc, (c.find a).isSome) →
-      (l.foldl (fun acc b => insertBy c b acc) acc).map (keyOf c) =
-        (l.map (keyOf c)).foldl (fun acc x => insertK Key.lt x acc) (acc.map (keyOf c)) by
-    simpa using this [] (by simp)
-  induction l with
-  | nil => intro acc _; rfl
-  | cons b rest ih =>
-    intro acc hacc
-    simp only [List.foldl_cons, List.map_cons]
-    have hb := hl b (by simp)
-    have hmem : ∀ a ∈ insertBy c b acc, (c.find a).isSome := by
-      intro a ha
-      have : a = b ∨ a ∈ acc := by
-        clear ih
-        induction acc with
-        | nil => simp [insertBy] at ha; exact Or.inl ha
-        | cons x xs ihx =>
-          simp only [insertBy] at ha
-          split at ha
-          · split at ha
-            · simp at ha; rcases ha with h | h | h <;> simp [h]
-            · simp at ha
-              rcases ha with h | h
-              · simp [h]
-              · rcases ihx (fun y hy => hacc y (by simp [hy])) h with h' | h' <;> simp [h']
-          · simp at ha
-            rcases ha with h | h
-            · simp [h]
-            · rcases ihx (fun y hy => hacc y (by simp [hy])) h with h' | h' <;> simp [h']
-      rcases this with rfl | h
-      · exact hb
-      · exact hacc a h
-    rw [ih (fun a ha => hl a (by simp [ha])) _ hmem, insertBy_is_insertK c b hb acc hacc]
+    (sortRanked c l).map (keyOf c) = sortK Key.lt (l.map (keyOf c)) :=
+  sortRanked_is_key_sort c l hl
 
 /-! ## the athlete's best -/
 
@@ -190,11 +127,97 @@ def shownPlace (j : Jumper) : Option Nat := if j.bestIdx.isSome then some j.plac
 theorem C03_unplaced_iff_no_clearance (j : Jumper) : (shownPlace j).isNone ↔ j.bestIdx.isNone := by
   unfold shownPlace; cases j.bestIdx <;> simp
 
-/-- The full statement of C03's placing clause (NOT proved here; see the header): in every reachable
-    terminal state the shown places are `1 +` the number of athletes with a strictly better key, where
-    the key is the countback key computed from the card. Decided by tools/checks/c03.py. -/
+/-- The full statement of C03's placing clause: in every reachable terminal state the places are `1 +` the
+    number of athletes with a strictly better key. -/
 def C03_statement : Prop :=
   ∀ c : Comp, Props.C02.Reachable c → (c.phase = .finished ∨ c.phase = .won ∨ c.phase = .drawn) →
     ∀ j ∈ c.jumpers, j.place = 1 + ((c.jumpers.filter (fun k => Key.lt k.key j.key)).length)
+
+theorem placesInv_reachable (c : Comp) (h : Props.C02.Reachable c) : PlacesInv c := by
+  induction h with
+  | init => exact ⟨⟨by simp, by simp⟩, Or.inl rfl⟩
+  | step c op _ ih => exact step_PlacesInv c op ih
+
+/-- bibs are distinct and the ranked list names every athlete once — every reachable state -/
+theorem C03_ranked_is_permutation (c : Comp) (h : Props.C02.Reachable c) :
+    (c.jumpers.map (·.bib)).Nodup ∧ c.ranked.Perm (c.jumpers.map (·.bib)) :=
+  (placesInv_reachable c h).1
+
+/-- **Places follow the countback keys in every decided state** (jump-off, won, finished, drawn), for every call
+    sequence from the empty competition. -/
+theorem C03_places_every_decided_state (c : Comp) (h : Props.C02.Reachable c)
+    (hp : c.phase ≠ .scheduled ∧ c.phase ≠ .started) :
+    ∀ j ∈ c.jumpers, j.place = 1 + ((c.jumpers.filter (fun k => Key.lt k.key j.key)).length) := by
+  rcases (placesInv_reachable c h).2 with h1 | h1 | h1
+  · exact absurd h1 hp.1
+  · exact absurd h1 hp.2
+  · exact h1
+
+theorem C03 : C03_statement := by
+  intro c hr hp
+  apply C03_places_every_decided_state c hr
+  rcases hp with h | h | h <;> simp [h]
+
+/-- equal keys share a place, a better key has a smaller place number — in every decided reachable state -/
+theorem C03_ties_and_order (c : Comp) (h : Props.C02.Reachable c) (hp : c.phase ≠ .scheduled ∧ c.phase ≠ .started)
+    (a b : Jumper) (ha : a ∈ c.jumpers) (hb : b ∈ c.jumpers) :
+    (a.key = b.key → a.place = b.place) ∧ (Key.lt a.key b.key = true → a.place < b.place) := by
+  have hpl := C03_places_every_decided_state c h hp
+  rw [hpl a ha, hpl b hb]
+  have hcount : ∀ k : Key, (c.jumpers.filter (fun x => Key.lt x.key k)).length = countLt Key.lt (c.jumpers.map Jumper.key) k := by
+    intro k; unfold countLt; rw [List.filter_map, List.length_map]; rfl
+  rw [hcount, hcount]
+  have := C03_equal_keys_share (c.jumpers.map Jumper.key) a.key b.key
+  exact ⟨this.1, fun hlt => this.2 hlt (List.mem_map.2 ⟨a, ha, rfl⟩)⟩
+
+/-! ## the key is the card's countback key -/
+
+theorem allBest_reachable (c : Comp) (h : Props.C02.Reachable c) : AllBest c := by
+  induction h with
+  | init => intro j hj; cases hj
+  | step c op hr ih => exact step_AllBest c op (placesInv_reachable c hr).1 ih
+
+/-- **The stored best is the greatest height on the card, its column the first at that height** — every reachable
+    state, every athlete: no clearance on the card when there is no best; otherwise the best column `i` holds a
+    clearance, `best` is the height of that column, every cleared column is at most that high, and the cleared
+    columns at exactly that height (a jump-off may revisit it) are not before `i`. -/
+theorem C03_best_is_greatest_cleared (c : Comp) (h : Props.C02.Reachable c) (j : Jumper) (hj : j ∈ c.jumpers) :
+    (j.bestIdx = none → ∀ i, clearedAt j.card i = false) ∧
+    (∀ i, j.bestIdx = some i →
+      i < j.card.length ∧ clearedAt j.card i = true ∧ j.best = c.heights.getD i 0 ∧
+      ∀ i', clearedAt j.card i' = true → c.heights.getD i' 0 ≤ j.best ∧ (c.heights.getD i' 0 = j.best → i ≤ i')) :=
+  ⟨(allBest_reachable c h j hj).noneCase, (allBest_reachable c h j hj).someCase⟩
+
+/-- … and the card determines it: a column that is the first among those cleared at the greatest cleared height
+    IS the stored best column -/
+theorem C03_best_column_unique (c : Comp) (h : Props.C02.Reachable c) (j : Jumper) (hj : j ∈ c.jumpers) (i : Nat)
+    (hi : clearedAt j.card i = true)
+    (hmax : ∀ i', clearedAt j.card i' = true →
+      c.heights.getD i' 0 ≤ c.heights.getD i 0 ∧ (c.heights.getD i' 0 = c.heights.getD i 0 → i ≤ i')) :
+    j.bestIdx = some i ∧ j.best = c.heights.getD i 0 := by
+  have hb := allBest_reachable c h j hj
+  cases hbi : j.bestIdx with
+  | none => have := hb.noneCase hbi i; rw [this] at hi; cases hi
+  | some i0 =>
+    obtain ⟨_, h2, h3, h4⟩ := hb.someCase i0 hbi
+    have a := h4 i hi
+    have b := hmax i0 h2
+    rw [h3] at a
+    have e : c.heights.getD i 0 = c.heights.getD i0 0 := by omega
+    have : i0 = i := by
+      have h5 := a.2 e
+      have h6 := b.2 e.symm
+      omega
+    subst this
+    exact ⟨rfl, h3⟩
+
+/-- the card is never longer than the list of heights -/
+theorem C03_card_within_heights (c : Comp) (h : Props.C02.Reachable c) (j : Jumper) (hj : j ∈ c.jumpers) :
+    j.card.length ≤ c.heights.length := (allBest_reachable c h j hj).len
+
+/-! non-vacuity: a reachable finished competition with a tie for second (kernel-evaluated) -/
+example : let c := Props.C02.runOps [.add 1, .add 2, .add 3, .bar 105, .trial 1 .o, .trial 2 .x, .trial 2 .o, .trial 3 .x, .trial 3 .o,
+      .bar 110, .trial 1 .o, .trial 2 .x, .trial 2 .x, .trial 2 .x, .trial 3 .x, .trial 3 .x, .trial 3 .x]
+    c.phase = .won ∧ c.jumpers.map (·.place) = [1, 2, 2] := by decide +kernel
 
 end AthlibVerif.Props.C03
